@@ -17,6 +17,9 @@ import Mathlib.Tactic.NormNum
 
 set_option linter.unusedSectionVars false
 set_option linter.unusedSimpArgs false
+set_option linter.unusedTactic false
+set_option linter.unreachableTactic false
+set_option linter.unnecessarySeqFocus false
 
 namespace Lbg.Lemmas
 open Lbg Lbg.Gen
@@ -109,12 +112,13 @@ def arcOk (M : MathOps α) (l : LR2 α) (a : Arc2S α) (t : α) : Prop :=
 instance (M : MathOps α) (l : LR2 α) (a : Arc2S α) (t : α) : Decidable (arcOk M l a t) := by
   unfold arcOk; infer_instance
 
-/-- Model of `intersect_line2d_arc2d_*` / `intersect_line2d_infinite_arc2d_*`.  NOTE the tangent
-case (`u1 = u2`) is not range-filtered by the code. -/
+/-- Model of `intersect_line2d_arc2d_*` / `intersect_line2d_infinite_arc2d_*`: each crossing is kept
+when its parameter is in range and the point passes the angular filter (a tangent crossing is
+listed once). -/
 def arcPts (k : Rng) (M : MathOps α) (l : LR2 α) (a : Arc2S α) : List (V2 α) :=
   if arcDisc l a < 0 then []
   else if arcR1 M l a = arcR2 M l a then
-    (if arcOk M l a (arcR1 M l a) then [at2 l (arcR1 M l a)] else [])
+    (if k.ok (arcR1 M l a) ∧ arcOk M l a (arcR1 M l a) then [at2 l (arcR1 M l a)] else [])
   else
     (if k.ok (arcR1 M l a) ∧ arcOk M l a (arcR1 M l a) then [at2 l (arcR1 M l a)] else [])
       ++ (if k.ok (arcR2 M l a) ∧ arcOk M l a (arcR2 M l a) then [at2 l (arcR2 M l a)] else [])
@@ -173,12 +177,11 @@ theorem intersect_line2d_infinite_arc2d_s_eq (M : MathOps α) (l : LR2 α) (a : 
   simp only [← arcDisc_unfold]
   simp only [ite_or_chain, ite_and_chain]
   simp only [filter1, filter2]
-  simp only [arcPts, arcOk, arcSpan, isCirc, spanNC, Rng.ok, at2, ← not_lt, true_and]
-  by_cases hT : arcR1 M l a = arcR2 M l a
-  all_goals
+  simp only [arcPts, arcOk, arcSpan, isCirc, spanNC, Rng.ok, at2, ← not_lt, true_and] <;>
+  (by_cases hT : arcR1 M l a = arcR2 M l a <;>
     simp only [hT, not_true_eq_false, not_false_eq_true, false_and, true_and, and_true,
       and_false, or_true, true_or, or_false, false_or, or_self, and_self, ↓reduceIte,
-      List.append_nil, List.nil_append]
+      List.append_nil, List.nil_append])
 
 theorem intersect_line2d_infinite_arc2d_r_eq (M : MathOps α) (l : LR2 α) (a : Arc2S α) :
     intersect_line2d_infinite_arc2d_r M l a = arcPts .line M l a := by
@@ -188,12 +191,11 @@ theorem intersect_line2d_infinite_arc2d_r_eq (M : MathOps α) (l : LR2 α) (a : 
   simp only [← arcDisc_unfold]
   simp only [ite_or_chain, ite_and_chain]
   simp only [filter1, filter2]
-  simp only [arcPts, arcOk, arcSpan, isCirc, spanNC, Rng.ok, at2, ← not_lt, true_and]
-  by_cases hT : arcR1 M l a = arcR2 M l a
-  all_goals
+  simp only [arcPts, arcOk, arcSpan, isCirc, spanNC, Rng.ok, at2, ← not_lt, true_and] <;>
+  (by_cases hT : arcR1 M l a = arcR2 M l a <;>
     simp only [hT, not_true_eq_false, not_false_eq_true, false_and, true_and, and_true,
       and_false, or_true, true_or, or_false, false_or, or_self, and_self, ↓reduceIte,
-      List.append_nil, List.nil_append]
+      List.append_nil, List.nil_append])
 
 theorem intersect_line2d_arc2d_r_eq (M : MathOps α) (l : LR2 α) (a : Arc2S α) :
     intersect_line2d_arc2d_r M l a = arcPts .ray M l a := by
@@ -203,14 +205,11 @@ theorem intersect_line2d_arc2d_r_eq (M : MathOps α) (l : LR2 α) (a : Arc2S α)
   simp only [← arcDisc_unfold]
   simp only [ite_or_chain, ite_and_chain]
   simp only [filter1, filter2]
-  simp only [arcPts, arcOk, arcSpan, isCirc, spanNC, Rng.ok, at2, ← not_lt, true_and]
-  by_cases hA : arcR1 M l a < 0 <;>
-    by_cases hB : arcR2 M l a < 0 <;>
-    by_cases hT : arcR1 M l a = arcR2 M l a
-  all_goals
+  simp only [arcPts, arcOk, arcSpan, isCirc, spanNC, Rng.ok, at2, ← not_lt, true_and] <;>
+  (by_cases hA : arcR1 M l a < 0 <;> by_cases hB : arcR2 M l a < 0 <;> by_cases hT : arcR1 M l a = arcR2 M l a <;>
     simp only [hA, hB, hT, not_true_eq_false, not_false_eq_true, false_and, true_and, and_true,
       and_false, or_true, true_or, or_false, false_or, or_self, and_self, ↓reduceIte,
-      List.append_nil, List.nil_append]
+      List.append_nil, List.nil_append])
 
 theorem intersect_line2d_arc2d_s_eq (M : MathOps α) (l : LR2 α) (a : Arc2S α) :
     intersect_line2d_arc2d_s M l a = arcPts .seg M l a := by
@@ -220,16 +219,11 @@ theorem intersect_line2d_arc2d_s_eq (M : MathOps α) (l : LR2 α) (a : Arc2S α)
   simp only [← arcDisc_unfold]
   simp only [ite_or_chain, ite_and_chain]
   simp only [filter1, filter2]
-  simp only [arcPts, arcOk, arcSpan, isCirc, spanNC, Rng.ok, at2, ← not_lt, true_and]
-  by_cases hA : arcR1 M l a < 0 <;>
-    by_cases hA' : 1 < arcR1 M l a <;>
-    by_cases hB : arcR2 M l a < 0 <;>
-    by_cases hB' : 1 < arcR2 M l a <;>
-    by_cases hT : arcR1 M l a = arcR2 M l a
-  all_goals
+  simp only [arcPts, arcOk, arcSpan, isCirc, spanNC, Rng.ok, at2, ← not_lt, true_and] <;>
+  (by_cases hA : arcR1 M l a < 0 <;> by_cases hA' : 1 < arcR1 M l a <;> by_cases hB : arcR2 M l a < 0 <;> by_cases hB' : 1 < arcR2 M l a <;> by_cases hT : arcR1 M l a = arcR2 M l a <;>
     simp only [hA, hA', hB, hB', hT, not_true_eq_false, not_false_eq_true, false_and, true_and, and_true,
       and_false, or_true, true_or, or_false, false_or, or_self, and_self, ↓reduceIte,
-      List.append_nil, List.nil_append]
+      List.append_nil, List.nil_append])
 
 /-! ### Properties of the line / arc model -/
 
@@ -250,12 +244,12 @@ theorem arcOk_iff_pt_in (M : MathOps α) (l : LR2 α) (a : Arc2S α) (t : α) :
     arcOk M l a t ↔ arc2_pt_in M a (at2 l t) = true := by
   rw [arc2_pt_in_eq, decide_eq_true_eq]; rfl
 
-/-- Every listed point is `l.p + t·l.v` for a closed-form root `t` that passes the angular filter;
-in the non-tangent case `t` is also within range. -/
+/-- Every listed point is `l.p + t·l.v` for a closed-form root `t` that is within range and passes
+the angular filter. -/
 theorem mem_arcPts (k : Rng) (M : MathOps α) (l : LR2 α) (a : Arc2S α) (q : V2 α)
     (h : q ∈ arcPts k M l a) :
     0 ≤ arcDisc l a ∧ ∃ t, (t = arcR1 M l a ∨ t = arcR2 M l a) ∧ q = at2 l t ∧ arcOk M l a t ∧
-      (arcR1 M l a ≠ arcR2 M l a → k.ok t) := by
+      k.ok t := by
   unfold arcPts at h
   by_cases h1 : arcDisc l a < 0
   · rw [if_pos h1] at h; simp at h
@@ -263,22 +257,22 @@ theorem mem_arcPts (k : Rng) (M : MathOps α) (l : LR2 α) (a : Arc2S α) (q : V
   refine ⟨not_lt.mp h1, ?_⟩
   by_cases h2 : arcR1 M l a = arcR2 M l a
   · rw [if_pos h2] at h
-    by_cases h3 : arcOk M l a (arcR1 M l a)
+    by_cases h3 : k.ok (arcR1 M l a) ∧ arcOk M l a (arcR1 M l a)
     · rw [if_pos h3] at h
       simp only [List.mem_singleton] at h
-      exact ⟨_, Or.inl rfl, h, h3, fun hne => absurd h2 hne⟩
+      exact ⟨_, Or.inl rfl, h, h3.2, h3.1⟩
     · rw [if_neg h3] at h; simp at h
   · rw [if_neg h2] at h
     rcases List.mem_append.mp h with h' | h'
     · by_cases h4 : k.ok (arcR1 M l a) ∧ arcOk M l a (arcR1 M l a)
       · rw [if_pos h4] at h'
         simp only [List.mem_singleton] at h'
-        exact ⟨_, Or.inl rfl, h', h4.2, fun _ => h4.1⟩
+        exact ⟨_, Or.inl rfl, h', h4.2, h4.1⟩
       · rw [if_neg h4] at h'; simp at h'
     · by_cases h4 : k.ok (arcR2 M l a) ∧ arcOk M l a (arcR2 M l a)
       · rw [if_pos h4] at h'
         simp only [List.mem_singleton] at h'
-        exact ⟨_, Or.inr rfl, h', h4.2, fun _ => h4.1⟩
+        exact ⟨_, Or.inr rfl, h', h4.2, h4.1⟩
       · rw [if_neg h4] at h'; simp at h'
 
 /-- With the square-root law and `v ≠ 0`, the two closed-form roots coincide iff the discriminant
@@ -303,14 +297,11 @@ theorem arcPts_sound (k : Rng) (M : MathOps α) (l : LR2 α) (a : Arc2S α) (q :
     (ha : arcA l ≠ 0)
     (hs : 0 ≤ arcDisc l a → M.sqrt (arcDisc l a) * M.sqrt (arcDisc l a) = arcDisc l a)
     (h : q ∈ arcPts k M l a) :
-    onCirc a q ∧ Rng.line.On l q ∧ arc2_pt_in M a q = true ∧ (arcDisc l a ≠ 0 → k.On l q) := by
+    onCirc a q ∧ k.On l q ∧ arc2_pt_in M a q = true := by
   obtain ⟨h0, t, ht, rfl, hok, hrng⟩ := mem_arcPts k M l a q h
-  refine ⟨?_, (Rng.On_iff_at2 .line l _).mpr ⟨t, trivial, rfl⟩,
-    (arcOk_iff_pt_in M l a t).mp hok, fun hne => ?_⟩
-  · rw [onCirc_at2_iff]
-    exact (quadratic_root_iff _ _ _ _ _ ha (hs h0)).mpr ht
-  · exact (Rng.On_iff_at2 k l _).mpr
-      ⟨t, hrng (fun he => hne ((arc_roots_eq_iff M l a ha (hs h0)).mp he)), rfl⟩
+  refine ⟨?_, (Rng.On_iff_at2 k l _).mpr ⟨t, hrng, rfl⟩, (arcOk_iff_pt_in M l a t).mp hok⟩
+  rw [onCirc_at2_iff]
+  exact (quadratic_root_iff _ _ _ _ _ ha (hs h0)).mpr ht
 
 /-- Completeness of the model: every in-range crossing that passes the filter is listed. -/
 theorem arcPts_complete (k : Rng) (M : MathOps α) (l : LR2 α) (a : Arc2S α)
@@ -331,7 +322,7 @@ theorem arcPts_complete (k : Rng) (M : MathOps α) (l : LR2 α) (a : Arc2S α)
   · rw [if_pos h2]
     have e : t = arcR1 M l a := by rcases hr with hr | hr; exact hr; exact hr.trans h2.symm
     subst e
-    rw [if_pos hok]; simp
+    rw [if_pos ⟨ht, hok⟩]; simp
   · rw [if_neg h2]
     rcases hr with hr | hr
     · subst hr
